@@ -471,6 +471,7 @@ class Normalizer(object):
         while changed and rounds < 20:
             rounds += 1
             changed = self.split_tuple_assigns(node)
+            changed |= self.scalarise_records(node, fi, ctx)
             changed |= self.copy_prop(node)
             changed |= self.splice_stars(node)
             if self.canonical_statements(node, fi, ctx):
@@ -480,6 +481,53 @@ class Normalizer(object):
         if not node.body:
             node.body = [ast.Pass()]
         ast.fix_missing_locations(node)
+
+    # -- N19: an assignment expression evaluated unconditionally ---------------
+    WALRUS_HEADS = {ast.If: 'test', ast.Expr: 'value', ast.Assign: 'value',
+                    ast.Return: 'value', ast.AnnAssign: 'value'}
+
+    def hoist_walrus(self, st):
+        """if f(x := e): B   ->   x = e; if f(x): B
+        when the assignment expression is always evaluated and everything
+        evaluated before it is a plain name / constant / attribute chain that
+        does not read x.  (Loop tests are left alone: the engines read those
+        themselves.)"""
+        field = self.WALRUS_HEADS.get(type(st))
+        if field is None:
+            return []
+        e = getattr(st, field)
+        if e is None or not any(isinstance(x, ast.NamedExpr)
+                                for x in ast.walk(e)):
+            return []
+        order = eval_order(e)
+        cond = conditional_positions(e)
+        for k, n in enumerate(order):
+            if not isinstance(n, ast.NamedExpr):
+                continue
+            if id(n) in cond or not isinstance(n.target, ast.Name):
+                return []
+            own = set(id(x) for x in ast.walk(n))
+            for m in order[:k]:
+                if id(m) in own:
+                    continue
+                if isinstance(m, ast.Name):
+                    if m.id == n.target.id:
+                        return []
+                elif not isinstance(m, (ast.Constant, ast.Attribute)):
+                    return []
+            asg = ast.copy_location(ast.Assign(
+                targets=[ast.Name(id=n.target.id, ctx=ast.Store())],
+                value=n.value), st)
+            use = ast.copy_location(ast.Name(id=n.target.id,
+                                             ctx=ast.Load()), n)
+            if e is n:
+                setattr(st, field, use)
+            else:
+                replace_node(e, n, use)
+            ast.fix_missing_locations(asg)
+            self.stats['walrus'] = self.stats.get('walrus', 0) + 1
+            return [asg]
+        return []
 
     # -- N5: statement idioms with one canonical spelling ---------------------
     def canonical_statements(self, fnode, fi, ctx):
@@ -620,6 +668,10 @@ class Normalizer(object):
                     changed[0] = True
                     i += 1
                     continue
+                pre = self.hoist_walrus(st)
+                if pre:
+                    out.extend(pre)
+                    changed[0] = True
                 out.append(st)
                 i += 1
             for st in out:
@@ -1852,6 +1904,168 @@ class Normalizer(object):
                                              target.qualname))
         return prefix + new
 
+    # -- N21: a namedtuple local that is only taken apart --------------------
+    def namedtuple_fields(self, e, module):
+        """field names if the expression names a plain module-level
+        `X = namedtuple('X', fields)` of the program, else None"""
+        if not isinstance(e, (ast.Name, ast.Attribute)):
+            return None
+        try:
+            ent = self.db.resolve_dotted(module, e)
+            ent = self.db.deref(ent) if isinstance(ent, tuple) else ent
+        except AnalysisError:
+            return None
+        if not (isinstance(ent, tuple) and ent[0] == 'value'):
+            return None
+        v, vm = ent[1], ent[2]
+        if not (isinstance(v, ast.Call) and len(v.args) == 2 and
+                not v.keywords):
+            return None
+        try:
+            mk = self.db.resolve_dotted(vm, v.func)
+        except AnalysisError:
+            return None
+        if getattr(mk, 'dotted', None) != 'collections.namedtuple':
+            return None
+        f = v.args[1]
+        if isinstance(f, ast.Constant) and isinstance(f.value, str):
+            return tuple(f.value.replace(',', ' ').split())
+        if isinstance(f, (ast.Tuple, ast.List)) and all(
+                isinstance(x, ast.Constant) and isinstance(x.value, str)
+                for x in f.elts):
+            return tuple(x.value for x in f.elts)
+        return None
+
+    def scalarise_records(self, fnode, fi, ctx):
+        """v = NT(f1=e1, f2=e2)  (every assignment of v of that form) with
+        every other mention of v one of  `v.f1`,  `v[0]`,  `f(*v)`,
+        `a, b = v`   ->   v_f1 = e1; v_f2 = e2  and the mentions become the
+        locals.  (The record never escapes, so nothing can tell.)"""
+        nested = set()
+        for x in ast.walk(fnode):
+            if x is not fnode and isinstance(x, (
+                    ast.FunctionDef, ast.AsyncFunctionDef, ast.Lambda,
+                    ast.ClassDef, ast.ListComp, ast.SetComp, ast.DictComp,
+                    ast.GeneratorExp)):
+                for y in ast.walk(x):
+                    if isinstance(y, ast.Name):
+                        nested.add(y.id)
+            elif isinstance(x, (ast.Global, ast.Nonlocal)):
+                nested.update(x.names)
+        par = {}
+        for x in ast.walk(fnode):
+            for c in ast.iter_child_nodes(x):
+                par[id(c)] = x
+        stores, loads = {}, {}
+        for x in ast.walk(fnode):
+            if isinstance(x, ast.Name):
+                (stores if isinstance(x.ctx, (ast.Store, ast.Del))
+                 else loads).setdefault(x.id, []).append(x)
+        params = set(a.arg for a in ast.walk(fnode.args)
+                     if isinstance(a, ast.arg))
+
+        def given_fields(call, fields):
+            if any(isinstance(a, ast.Starred) for a in call.args) or \
+                    any(k.arg is None for k in call.keywords):
+                return None
+            given = list(fields[:len(call.args)]) + [
+                k.arg for k in call.keywords]
+            if len(call.args) > len(fields) or sorted(given) != sorted(
+                    fields):
+                return None
+            return given
+
+        for v, sts in sorted(stores.items()):
+            if v in nested or v in params or v not in loads:
+                continue
+            fields = None
+            defs = []
+            for t in sts:
+                a = par.get(id(t))
+                if not (isinstance(a, ast.Assign) and len(a.targets) == 1
+                        and a.targets[0] is t and
+                        isinstance(a.value, ast.Call)):
+                    defs = None
+                    break
+                fs = self.namedtuple_fields(a.value.func, fi.module)
+                if fs is None or (fields is not None and fs != fields) or \
+                        given_fields(a.value, fs) is None:
+                    defs = None
+                    break
+                fields = fs
+                defs.append(a)
+            if not defs:
+                continue
+            plan = []
+            for u in loads[v]:
+                a = par.get(id(u))
+                if isinstance(a, ast.Attribute) and a.value is u and \
+                        isinstance(a.ctx, ast.Load) and a.attr in fields:
+                    plan.append(('attr', a, a.attr))
+                elif isinstance(a, ast.Subscript) and a.value is u and \
+                        isinstance(a.ctx, ast.Load) and isinstance(
+                            a.slice, ast.Constant) and isinstance(
+                                a.slice.value, int) and not isinstance(
+                                    a.slice.value, bool) and \
+                        -len(fields) <= a.slice.value < len(fields):
+                    plan.append(('attr', a, fields[a.slice.value]))
+                elif isinstance(a, ast.Starred) and isinstance(
+                        par.get(id(a)), ast.Call) and \
+                        a in par[id(a)].args:
+                    plan.append(('star', a, par[id(a)]))
+                elif isinstance(a, ast.Assign) and a.value is u and \
+                        len(a.targets) == 1 and isinstance(
+                            a.targets[0], (ast.Tuple, ast.List)) and \
+                        len(a.targets[0].elts) == len(fields) and not any(
+                            isinstance(t, ast.Starred)
+                            for t in a.targets[0].elts):
+                    plan.append(('unpack', a, None))
+                else:
+                    plan = None
+                    break
+            if not plan:
+                continue
+            names = {}
+            for fn_ in fields:
+                nm = '%s_%s' % (v, fn_)
+                if nm in ctx['names']:
+                    nm = self.fresh(nm)
+                ctx['names'].add(nm)
+                names[fn_] = nm
+
+            def load(fn_, at):
+                return ast.copy_location(ast.Name(id=names[fn_],
+                                                  ctx=ast.Load()), at)
+            for kind, node, extra in plan:
+                if kind == 'attr':
+                    replace_node(fnode, node, load(extra, node))
+                elif kind == 'star':
+                    k = extra.args.index(node)
+                    extra.args[k:k + 1] = [load(f_, node) for f_ in fields]
+                else:
+                    node.value = ast.copy_location(ast.Tuple(
+                        elts=[load(f_, node) for f_ in fields],
+                        ctx=ast.Load()), node)
+            for owner, f, block in self._blocks(fnode):
+                for a in defs:
+                    if not any(b is a for b in block):
+                        continue
+                    call = a.value
+                    new = []
+                    for fn_, val in zip(given_fields(call, fields),
+                                        list(call.args) + [
+                                            k.value for k in call.keywords]):
+                        new.append(ast.copy_location(ast.Assign(
+                            targets=[ast.Name(id=names[fn_],
+                                              ctx=ast.Store())],
+                            value=val), a))
+                    k = [n for n, b in enumerate(block) if b is a][0]
+                    block[k:k + 1] = new
+            self.stats['records'] = self.stats.get('records', 0) + 1
+            ast.fix_missing_locations(fnode)
+            return True     # one at a time: the tables above are stale
+        return False
+
     # -- N3 ----------------------------------------------------------------
     def split_tuple_assigns(self, fnode):
         changed = False
@@ -2310,8 +2524,85 @@ def materialise_factories(db):
     return made
 
 
+def materialise_aliases(db):
+    """N20.  `name = staticmethod(f)` / `classmethod(f)` / `name = f` in a
+    class body, f a module-level function of the same module defined once
+    and never rebound: the class gets a copy of f as an ordinary method of
+    that name (a module-level function sees the same globals as a method
+    does, so only __name__ differs).  The module-level original goes when
+    nothing else refers to it."""
+    known = known_units()[0]
+    made = []
+    for m in db.modules.values():
+        defs = {}
+        for st in m.tree.body:
+            if isinstance(st, ast.FunctionDef):
+                defs.setdefault(st.name, []).append(st)
+        rebound = set()
+        for x in ast.walk(m.tree):
+            if isinstance(x, ast.Name) and isinstance(
+                    x.ctx, (ast.Store, ast.Del)):
+                rebound.add(x.id)
+            elif isinstance(x, (ast.Global, ast.Nonlocal)):
+                rebound.update(x.names)
+        funcs = {n: d[0] for n, d in defs.items()
+                 if len(d) == 1 and n not in rebound and
+                 not d[0].decorator_list and
+                 n not in known.get(m.name, ())}
+        if not funcs:
+            continue
+        used = set()
+        for cls in [n for n in ast.walk(m.tree)
+                    if isinstance(n, ast.ClassDef)]:
+            for i, st in enumerate(list(cls.body)):
+                if not (isinstance(st, ast.Assign) and len(st.targets) == 1
+                        and isinstance(st.targets[0], ast.Name)):
+                    continue
+                v, wrap = st.value, None
+                if isinstance(v, ast.Call) and isinstance(
+                        v.func, ast.Name) and v.func.id in (
+                            'staticmethod', 'classmethod') and \
+                        len(v.args) == 1 and not v.keywords:
+                    wrap, v = v.func.id, v.args[0]
+                if not (isinstance(v, ast.Name) and v.id in funcs):
+                    continue
+                if any(isinstance(b, ast.FunctionDef) and
+                       b.name == st.targets[0].id for b in cls.body):
+                    continue
+                new = copy.deepcopy(funcs[v.id])
+                new.name = st.targets[0].id
+                new.decorator_list = [ast.copy_location(
+                    ast.Name(id=wrap, ctx=ast.Load()), st)] if wrap else []
+                cls.body[i] = new
+                used.add(v.id)
+                made.append('%s:%s.%s' % (m.name, cls.name, new.name))
+        for name in used:
+            fdef = funcs[name]
+            inside = set(id(x) for x in ast.walk(fdef))
+            refs = [x for x in ast.walk(m.tree) if isinstance(x, ast.Name)
+                    and x.id == name and id(x) not in inside]
+            # the copies made above contain the function's own recursive
+            # references too
+            refs = [x for x in refs if True]
+            strs = [x for x in ast.walk(m.tree) if isinstance(x, ast.Constant)
+                    and x.value == name]
+            imported = any(
+                isinstance(x, ast.ImportFrom) and any(
+                    al.name == name or (al.name == '*' and
+                                        not name.startswith('_'))
+                    for al in x.names)
+                and (x.module or '').split('.')[-1] == m.name.split('.')[-1]
+                or isinstance(x, ast.Attribute) and x.attr == name
+                for m2 in db.modules.values() if m2 is not m
+                for x in ast.walk(m2.tree))
+            if not refs and not strs and not imported:
+                m.tree.body = [x for x in m.tree.body if x is not fdef]
+    return made
+
+
 def run(db):
-    made = materialise_factories(db)
+    made = materialise_aliases(db)
+    made += materialise_factories(db)
     if made:
         # index the program with the materialised methods
         from .srcdb import SrcDB
